@@ -406,7 +406,7 @@ class Prog:
         self.claimable = []       # weak handles that scripts sent earlier will put into the pool: (name, kind)
         self.ops = []
         self.counter = counter
-        self.join_d = [0, 0, 1, 2, 3]
+        self.join_d = [0, 0, 1, 2, 3, 5]
         self.acnt = None          # shared counter of actor names, for operations that spawn (spawn_register)
 
     def fresh(self):
@@ -499,6 +499,15 @@ class Prog:
             o = {"op": op, "h": x}
             if op == "join":
                 o["d"] = rng.choice(self.join_d)
+                if o["d"] == 5:
+                    # join future made, OwningAddr detached into a plain Addr (nh), future awaited
+                    nh = self.fresh()
+                    o["nh"] = nh
+                    o["to"] = self.c
+                    self.h[nh] = "addr"
+                    del self.h[x]
+                    self.ops.append(o)
+                    return True
             elif op in ("send", "call", "ping", "await_ref", "try_halt", "halt", "await", "consume") and rng.random() < self.cancel_p:
                 o["d"] = rng.choice([1, 1, 4])          # poll once (or up to three times), drop if still pending
             if op in ("send", "call", "force_send"):
